@@ -1,6 +1,6 @@
 (* Entry points of the executable model, addressed by a numeric code (table mirrored in the harness). *)
 From Coq Require Import ZArith List.
-From WPU Require Import Common.Val Model.Buffers Model.Generic Model.Spans Model.IntervalMap Model.Combos Model.DLL Model.Caches Model.Sorted Model.LineFile Model.Csv Model.TmpPool Model.Pool Model.FMap Model.Storage.
+From WPU Require Import Common.Val Model.Buffers Model.Generic Model.Spans Model.IntervalMap Model.Combos Model.DLL Model.Caches Model.Sorted Model.LineFile Model.Csv Model.TmpPool Model.Pool Model.FMap Model.Storage Model.ForkRead.
 Import ListNotations.
 Open Scope Z_scope.
 
@@ -16,7 +16,7 @@ Definition table : list (Z * (val -> val)) :=
     (1100, run_linefile); (1200, run_mutfile);
     (1300, run_csv_seq); (1301, run_json_assumed);
     (2000, run_tmppool); (2001, run_filepool);
-    (100, run_pool); (500, run_fmap); (1400, run_storage) ].
+    (100, run_pool); (500, run_fmap); (1400, run_storage); (1800, run_forkread) ].
 
 Fixpoint lookup (t : list (Z * (val -> val))) (code : Z) : option (val -> val) :=
   match t with
